@@ -804,6 +804,10 @@ class FiniteRange(Domain):
     def _map_to_int(self, value) -> int:
         if self._step_internal == 0:
             return 0
+        elif self.cast_int and value in self._values:
+            # Rounding to int can move a value onto the mid-point between two
+            # grid points (in the internal domain): members map to themselves
+            return self._values.index(value)
         else:
             int_value = np.clip(value, self.lower, self.upper)
             if self.log_scale:
